@@ -16,19 +16,19 @@ LEVEL = 'exploration'
 RULE = (
     '@given(configuration, content descriptor (7 content classes, boundary-biased sizes 0..1 MiB straddling the 64 KiB / '
     '128 KiB / 256 KiB / 512 KiB internal chunk sizes), write path (add_object; add_streamed_object from BytesIO / real file / '
-    'short-read stream; add_objects_to_pack; add_streamed_object_to_pack; add_streamed_objects_to_pack from BytesIO or '
-    'LazyOpener+open_streams) x compress x no_holes x no_holes_read_twice, position inside a generated batch (with '
+    'short-read stream; add_objects_to_pack; add_streamed_object_to_pack; add_streamed_objects_to_pack from BytesIO, '
+    'LazyOpener+open_streams or short-read streams) x compress x no_holes x no_holes_read_twice, position inside a generated batch (with '
     'duplicates of itself), optional pack_all_loose(mode)/repack(mode) afterwards, read chunk size). Oracle: returned key == '
     'hashlib digest; get_object_content, get_objects_content (bulk among other keys), get_object_stream read in chunks, '
     'get_objects_stream_and_meta all return exactly the bytes; meta.size == len. Thorough adds the full product of 16 '
-    'boundary sizes x 3 classes x 8 write paths x 2 hashes x levels {1,5,9} x compress. Non-trivial = size >= 65536, or '
+    'boundary sizes x 3 classes x 10 write paths x 2 hashes x levels {1,5,9} x compress. Non-trivial = size >= 65536, or '
     'stored compressed, or written inside a batch; distinct by (hash, prefix, level, pack target, write path, flags, size, '
     'class, post-op, chunk size).'
 )
 ASSUMPTIONS = ['object sizes up to about 1 MiB here (tens of MiB are visited by C18)', 'hashlib and zlib are trusted']
 
 WRITE_PATHS = ('add_object', 'streamed_bytesio', 'streamed_file', 'streamed_short', 'objects_to_pack', 'streamed_object_to_pack',
-               'streamed_objects_to_pack', 'lazyopener_to_pack')
+               'streamed_objects_to_pack', 'lazyopener_to_pack', 'short_stream_to_pack', 'short_streams_to_pack')
 CHUNKS = (1, 7, 4096, 65536, 70000, 524288, -1)
 POST = ('none', 'none', 'pack:NO', 'pack:YES', 'pack:AUTO', 'pack:YES+repack:NO', 'pack:NO+repack:YES', 'pack:AUTO+repack:AUTO')
 
@@ -105,6 +105,13 @@ def run_case(case):  # pylint: disable=too-many-locals,too-many-branches,too-man
                 batch = [data]
             elif path == 'streamed_objects_to_pack':
                 keys = cont.add_streamed_objects_to_pack([io.BytesIO(b) for b in batch], **kwargs)
+                in_batch = len(batch) > 1
+            elif path == 'short_stream_to_pack':
+                # a stream that legitimately returns fewer bytes than asked for before its end (pipe, socket, raw stream)
+                keys = [cont.add_streamed_object_to_pack(ShortReadStream(data, case['short_step']), **kwargs)]
+                batch = [data]
+            elif path == 'short_streams_to_pack':
+                keys = cont.add_streamed_objects_to_pack([ShortReadStream(b, case['short_step'] + i) for i, b in enumerate(batch)], **kwargs)
                 in_batch = len(batch) > 1
             else:
                 openers = []
